@@ -266,7 +266,7 @@ def plane_oracle(name, f, A, B, C):
 
 
 def run_plane(ctx, prox, lines, cmp):
-    n = 300 if ctx.quick() else 6000
+    n = 1500 if ctx.quick() else 20000
     kinds = ['int', 'dyadic', 'rand', 'big', 'small']
     for i in range(n):
         rng = ctx.rng
@@ -369,7 +369,7 @@ def sphere_oracle(prox, A, B, C):
 
 
 def run_sphere(ctx, prox, lines, cmp):
-    n = 400 if ctx.quick() else 8000
+    n = 2000 if ctx.quick() else 30000
     kinds = ['rand', 'pole', 'antimeridian', 'grid', 'rand']
     for i in range(n):
         rng = ctx.rng
@@ -571,7 +571,7 @@ def run_dist(ctx, conv, lines, cmp):
     for u in units:
         for s in ('3' + u, '2.5 ' + u.upper(), '.25 ' + ' '.join(u)):
             check_dist(ctx, conv, s, 'valid-unit', units_tbl, default_unit, lines, cmp)
-    n = 700 if ctx.quick() else 20000
+    n = 3000 if ctx.quick() else 60000
     for _ in range(n):
         s, tag = gen_dist_string(ctx.rng, units)
         check_dist(ctx, conv, s, tag, units_tbl, default_unit, lines, cmp)
@@ -620,7 +620,7 @@ def kernel_tokens(k):
 
 def run_kernels(ctx, conv, lines, cmp):
     # (a) _ellipse_kernel for all half-width pairs up to a bound
-    bound = 7 if ctx.quick() else 22
+    bound = 10 if ctx.quick() else 30
     for hw in range(bound + 1):
         for hh in range(bound + 1):
             case = {'family': 'ellipse', 'hw': hw, 'hh': hh}
@@ -634,7 +634,7 @@ def run_kernels(ctx, conv, lines, cmp):
             cmp.append(('kernel', ('ok', k), case))
     # (b) circle_kernel / annulus_kernel with cell sizes and radii
     default_unit, units_tbl = read_units(os.environ.get('VERIF_REPO', '/repo'))
-    n = 160 if ctx.quick() else 3000
+    n = 600 if ctx.quick() else 8000
     for i in range(n):
         rng = ctx.rng
         cx = rng.choice([1.0, 0.5, 2.0, 3.0, 0.25, 10.0, 30.0, rng.uniform(0.3, 4.0)])
@@ -652,6 +652,12 @@ def run_kernels(ctx, conv, lines, cmp):
             radius = rng.choice([0, -1, 'abc', '3 yards', '', '1e2'])
         rs = str(radius)
         exp = dist_oracle(rs, units_tbl, default_unit)
+        if exp[0] == 'ok':
+            # keep the kernel small (a 9999 ft radius on 0.25 m cells would be a 24381 x 24381 array)
+            while float(exp[1]) / cx > 60:
+                cx *= 4.0
+            while float(exp[1]) / cy > 60:
+                cy *= 4.0
         case = {'family': 'circle', 'cx': cx, 'cy': cy, 'radius': radius}
         ctx.case(case)
         r = call(conv.circle_kernel, cx, cy, radius)
@@ -727,7 +733,7 @@ def run_kernels(ctx, conv, lines, cmp):
 def run_cellsize(ctx, conv, lines, cmp):
     default_unit, units_tbl = read_units(os.environ.get('VERIF_REPO', '/repo'))
     tbl = dict(units_tbl)
-    n = 120 if ctx.quick() else 2000
+    n = 300 if ctx.quick() else 4000
     for i in range(n):
         rng = ctx.rng
         h, w = rng.randint(2, 6), rng.randint(2, 7)
